@@ -2,7 +2,6 @@
     Statements only; proofs are in Canon.v / Inv.v / Hist.v. *)
 From Coq Require Import List NArith ZArith Bool.
 From Mast Require Import Prim Key Tree KeyOrder Codec Store Diff World Erase Build Spec Canon Level Inv Hist Reload WorldInv.
-From Mast Require Import ReloadB.
 Import ListNotations.
 
 (** For EVERY key type with a strict total order, every value type with decidable equality, every
